@@ -1020,6 +1020,37 @@ package gohlslib
 //@        && callarg("muxerSegmenter.writeMPEG4Audio", 0, 2) == ntp && callarg("muxerSegmenter.writeMPEG4Audio", 0, 3) == pts && callarg("muxerSegmenter.writeMPEG4Audio", 0, 4) == aus
 //@ end
 
+// C10: the callback wrappers installed by Client.OnData* forward the unit's timestamps and data unchanged (VP9: the one frame)
+//@ func Client.OnDataAV1$1
+//@   props C10
+//@   requires cb != nil
+//@   ensures calls("dyncall") == 1 && callarg("dyncall", 0, 0) == pts && callarg("dyncall", 0, 1) == ref(data)
+//@ end
+
+//@ func Client.OnDataH26x$1
+//@   props C10
+//@   requires cb != nil
+//@   ensures calls("dyncall") == 1 && callarg("dyncall", 0, 0) == pts && callarg("dyncall", 0, 1) == dts && callarg("dyncall", 0, 2) == ref(data)
+//@ end
+
+//@ func Client.OnDataMPEG4Audio$1
+//@   props C10
+//@   requires cb != nil
+//@   ensures calls("dyncall") == 1 && callarg("dyncall", 0, 0) == pts && callarg("dyncall", 0, 1) == ref(data)
+//@ end
+
+//@ func Client.OnDataOpus$1
+//@   props C10
+//@   requires cb != nil
+//@   ensures calls("dyncall") == 1 && callarg("dyncall", 0, 0) == pts && callarg("dyncall", 0, 1) == ref(data)
+//@ end
+
+//@ func Client.OnDataVP9$1
+//@   props C10 C13
+//@   requires cb != nil && len(data) >= 1
+//@   ensures calls("dyncall") == 1 && callarg("dyncall", 0, 0) == pts && callarg("dyncall", 0, 1) == ref(data[0])
+//@ end
+
 // ---------------------------------------------------------------------------------------
 // C10 / C11 / C13: client (sequential logic; goroutines, channels and HTTP are outside the VCs)
 
